@@ -1,0 +1,41 @@
+//go:build verif
+
+package peer
+
+import "time"
+
+// Add-only accessors for the verification harness (properties C31, C32).
+
+// VerifReconnState reports the reconnection bookkeeping kept for addr.
+func (r *Reconnector) VerifReconnState(addr string) (exists bool, attempts int, nextDelay time.Duration, hasTimer bool) {
+	r.mu.Lock()
+	defer r.mu.Unlock()
+	st, ok := r.states[addr]
+	if !ok {
+		return false, 0, 0, false
+	}
+	return true, st.attempts, st.nextDelay, st.timer != nil
+}
+
+// VerifClosed reports whether Stop has been called.
+func (r *Reconnector) VerifClosed() bool {
+	r.mu.Lock()
+	defer r.mu.Unlock()
+	return r.closed
+}
+
+// VerifAddJitter exposes addJitter (pure function of d, the configuration
+// and the current time).
+func (r *Reconnector) VerifAddJitter(d time.Duration) time.Duration { return r.addJitter(d) }
+
+// VerifReconnector exposes the manager's reconnector.
+func (m *Manager) VerifReconnector() *Reconnector { return m.reconnector }
+
+// VerifRegistered reports whether conn is the connection currently registered
+// for its remote identity.
+func (m *Manager) VerifRegistered(conn *Connection) bool {
+	m.mu.RLock()
+	defer m.mu.RUnlock()
+	cur, ok := m.peers[conn.RemoteID]
+	return ok && cur == conn
+}
